@@ -281,6 +281,15 @@ class Report:
             if k['id'] in seen:
                 print(f"KNOWN-FINDING: property={self.prop} {k['id']}: {k['what']} (seen {seen[k['id']]}x)")
         rc = 0
+        if new:
+            from collections import Counter
+            gk = getattr(self, 'group_keys', None)
+            cnt = Counter(json.dumps({k: v for k, v in sig.items() if (gk is None or k in gk)}, sort_keys=True)[:300]
+                          for sig, _ in new) if gk else None
+            if cnt:
+                print('new violations by group:')
+                for k, n in cnt.most_common(40):
+                    print(f'  {n:6d}  {k}')
         reported = set()
         for sig, payload in new:
             key = json.dumps(sig, sort_keys=True)
